@@ -276,8 +276,8 @@ func init() {
 		ex.ghost["ctxdone:"+fmt.Sprint(o.ID)] = done
 		cancel := &FuncV{Name: "cancel", Native: func(ex *Exec, a []Value) Value {
 			if !done.closed {
-				done.closed = true
 				ex.sched.point()
+				done.closed = true
 			}
 			return nil
 		}}
@@ -375,6 +375,7 @@ func init() {
 			if next == nil {
 				return nil
 			}
+			ex.sched.logSwitch("settle", 0, next, "settle")
 			ex.sched.switchTo(next)
 		}
 		panic(unsupported("vfSettle: other goroutines never block"))
